@@ -245,15 +245,22 @@ def run(prog, rep, tier='quick'):
     h = prog.func('linalg', 'corrmtx')
     Nx = Aff.sym('N')
     n_shape = 0
-    for cplx in (False, True):
+    for cplx, c64 in ((False, False), (True, False), (True, True)):
         for method, rows in (('autocorrelation', lambda m_: Nx + m_), ('prewindowed', lambda m_: Nx), ('postwindowed', lambda m_: Nx),
                              ('covariance', lambda m_: Nx - m_), ('modified', lambda m_: (Nx - m_).scale(2))):
             for mval in (2, 5):
               mm = IntV(mval)
-              v, itp = C.run_function(prog, 'linalg', 'corrmtx', [C.data(cplx), Const(mval), Const(method)], {})
+              xd = C.data(cplx)
+              xd.c64 = c64          # single-precision complex data is complex data
+              v, itp = C.run_function(prog, 'linalg', 'corrmtx', [xd, Const(mval), Const(method)], {})
               n_shape += 1
-              label = '%s,m=%d,%s' % (method, mval, 'complex' if cplx else 'real')
+              label = '%s,m=%d,%s' % (method, mval, ('complex64' if c64 else 'complex') if cplx else 'real')
               if blocked(rep, 'corrmtx-shape', h.qname, label, itp):
+                  continue
+              lost = [c_ for c_ in itp.conflicts if c_.comp == 'dtype']
+              if cplx and (lost or (isinstance(v, Num) and v.cplx is False)):
+                  rep.violation('corrmtx-shape', h.qname, label + ' dtype', 'the data matrix of complex data is a real array: the imaginary '
+                                'part of the samples is discarded, the Gram matrix is that of the real part', loc(h.mod, h.node))
                   continue
               want = (rows(mm.a), mm.a + 1)
               got = v.shape if isinstance(v, Num) else None
@@ -276,5 +283,5 @@ def run(prog, rep, tier='quick'):
     rep.floor('pad obligations', n_pad, 4)
     rep.floor('conjugation contexts', n_conj, 28)
     rep.floor('normalisation contexts', n_norm, 8)
-    rep.floor('corrmtx contexts', n_shape, 10)
+    rep.floor('corrmtx contexts', n_shape, 30)
     rep.floor('maxlags=0 contexts', n_zero, 2)
